@@ -1,5 +1,6 @@
 (* C07 - property theorems only. *)
-From V Require Import Lib.Base Lib.Cbor Lib.CborParse Lib.CborSpan C07.Model C07.Basics C07.Walkers C07.Top C07.Components C07.Byron.
+From V Require Import Lib.Base Lib.Cbor Lib.CborParse Lib.CborSpan C07.Model C07.Basics C07.Walkers C07.Top C07.Components C07.Byron
+  C07.Dijkstra C07.Complete.
 Local Open Scope nat_scope.
 
 (* the bytes a reported range selects *)
@@ -156,6 +157,162 @@ Theorem C07_ebb_nothing_reported : forall streaming b,
 Proof. exact extract_ebb. Qed.
 Print Assumptions C07_ebb_nothing_reported.
 
+(* C07_witness_components_complete: NOTHING IS SKIPPED.  wit_items w lists, from
+   the tree alone and in encoding order, every datum (elements of the array
+   under key 4, through tag wrappers), every redeemer's data (elements of the
+   Alonzo list [[tag, index, data, ex_units] ..] or entries of the Conway map
+   {[tag, index]: [data, ex_units]} under key 5, with the key (tag mod 2^8,
+   index mod 2^32)) and every script (elements of the arrays under keys
+   1/3/6/7/8, through tag wrappers, with the script type).  The list of entries
+   extractWitnessComponentOffsets records has the same length, the same order
+   and the same kinds / keys / types, and entry j selects exactly the encoding
+   of component j; hence also per kind (the three Go maps read as insertion
+   sequences), and conversely every component in the sense of comp_in (the
+   vocabulary of C07_witness_components_exact) has an entry. *)
+Theorem C07_witness_components_complete : forall B base w,
+  wf w -> size_ok w -> wit_shape w = true -> located B base w ->
+  let cs := witness_components (enc w) base in
+  length cs = length (wit_items w) /\
+  map (fun c => (comp_kind c, sel B (comp_range c))) cs = map (fun kx => (fst kx, enc (snd kx))) (wit_items w) /\
+  (length (datum_ranges cs) = length (items_datums (wit_items w)) /\
+   map (sel B) (datum_ranges cs) = map enc (items_datums (wit_items w))) /\
+  (length (redeemer_ranges cs) = length (items_redeemers (wit_items w)) /\
+   map (fun kr => (fst kr, sel B (snd kr))) (redeemer_ranges cs) =
+   map (fun kx => (fst kx, enc (snd kx))) (items_redeemers (wit_items w))) /\
+  (length (script_ranges cs) = length (items_scripts (wit_items w)) /\
+   map (fun tr => (fst tr, sel B (snd tr))) (script_ranges cs) =
+   map (fun tx => (fst tx, enc (snd tx))) (items_scripts (wit_items w))) /\
+  (forall c0 x, comp_in w c0 x ->
+     exists c, In c cs /\ comp_kind c = comp_kind c0 /\ sel B (comp_range c) = enc x).
+Proof.
+  intros B base w Hw Hs Hsh HL cs.
+  pose proof (witness_components_complete B base w Hw Hs Hsh HL) as F. fold cs in F.
+  destruct (reports_split B cs _ F) as (F1 & F2 & F3).
+  split; [apply (Forall2_length' _ _ _ F)|].
+  split; [apply (Forall2_maps _ _ _ _ _ F); intros c kx [Hk Hr]; rewrite Hk; f_equal; apply range_is_slice; exact Hr|].
+  split; [split; [apply (Forall2_length' _ _ _ F1)|apply (Forall2_maps _ _ _ _ _ F1); intros r x Hr; apply range_is_slice; exact Hr]|].
+  split; [split; [apply (Forall2_length' _ _ _ F2)|apply (Forall2_maps _ _ _ _ _ F2); intros r x [Hk Hr]; rewrite Hk; f_equal; apply range_is_slice; exact Hr]|].
+  split; [split; [apply (Forall2_length' _ _ _ F3)|apply (Forall2_maps _ _ _ _ _ F3); intros r x [Hk Hr]; rewrite Hk; f_equal; apply range_is_slice; exact Hr]|].
+  intros c0 x Hin. apply comp_in_items in Hin.
+  assert (G : forall cs l, Forall2 (reports B) cs l -> In (comp_kind c0, x) l ->
+            exists c, In c cs /\ comp_kind c = comp_kind c0 /\ sel B (comp_range c) = enc x).
+  { clear. induction 1 as [|c kx cs l [Hk Hr] _ IH]; intros Hin; [destruct Hin|]. destruct Hin as [->|Hin].
+    - exists c. split; [left; reflexivity|]. split; [exact Hk|apply range_is_slice; exact Hr].
+    - destruct (IH Hin) as (c' & H1 & H2). exists c'. split; [right; exact H1|exact H2]. }
+  apply (G cs _ F Hin).
+Qed.
+Print Assumptions C07_witness_components_complete.
+
+(* the redeemer part of wit_items leaves no element of the list / no entry of the map out *)
+Theorem C07_wit_items_all_redeemers : forall v,
+  red_arr_shape v = true \/ red_map_shape v = true ->
+  length (red_items v) = match v with Arr _ rs => length rs | Map _ es => length es | _ => 0 end.
+Proof. exact red_items_length. Qed.
+
+(* ... and in a block: the component entries of transaction i are, in order, the components of witness set i *)
+Theorem C07_block_witness_components_complete : forall streaming b,
+  wf b -> size_ok b -> shelley_like (negb streaming) b = true ->
+  exists f0 h f1 bodies f2 wits aux rest txs,
+    b = Arr f0 (h :: Arr f1 bodies :: Arr f2 wits :: aux :: rest) /\
+    extract_gen false streaming (enc b) = Done txs /\
+    forall i t w, nth_error txs i = Some t -> nth_error wits i = Some w -> wit_shape w = true ->
+      map (fun c => (comp_kind c, sel (enc b) (comp_range c))) (l_comps t) =
+      map (fun kx => (fst kx, enc (snd kx))) (wit_items w).
+Proof.
+  intros s b Hw Hs Hl.
+  destruct (extract_shelley s b Hw Hs Hl) as (f0 & h & f1 & bodies & f2 & wits & aux & rest & txs & E & Ex & Len & H).
+  exists f0, h, f1, bodies, f2, wits, aux, rest, txs. repeat split; auto.
+  intros i t w Ht Hwi Hsh. destruct (H i t Ht) as (body & w' & Hb & Hwi' & Rb & Rw & Ho & Hm & Hcomps).
+  rewrite Hwi in Hwi'. injection Hwi' as <-. rewrite Hcomps. destruct Rw as [Lw _].
+  assert (Hww : wf w).
+  { subst b. apply (wf_children f2 wits i w); [|exact Hwi]. apply (wf_children f0 _ 2 _ Hw). reflexivity. }
+  apply (C07_witness_components_complete (enc b) _ w Hww (size_ok_located _ _ _ Lw Hs) Hsh Lw).
+Qed.
+Print Assumptions C07_block_witness_components_complete.
+
+(* C07_dijkstra_offsets_exact: Dijkstra blocks
+   [header, [invalid/nil, [[body, witness_set, aux/nil] ..], leios/nil, peras/nil]]
+   with ANY header form on every array and map: ExtractTransactionOffsets
+   recognises the layout (isDijkstraBlock), reports one location per
+   transaction, the body / witness-set ranges select exactly enc body /
+   enc witness_set and lie inside the block, the metadata range is zero iff the
+   third element is CBOR null and otherwise selects exactly enc aux, the output
+   ranges are as many as the outputs under the first key 1 of the body and
+   select each enc out, and the witness components are, in order, exactly the
+   components of the witness set.  DecodeWithOffsets has no Dijkstra layout:
+   it reports no transactions for such a block. *)
+Theorem C07_dijkstra_offsets_exact : forall b,
+  wf b -> size_ok b -> dijkstra_like b = true ->
+  exists f0 h f1 inv ft txs lc pc locs,
+    b = Arr f0 [h; Arr f1 [inv; Arr ft txs; lc; pc]] /\
+    extract_transaction_offsets (enc b) = Done locs /\ length locs = length txs /\
+    decode_with_offsets (enc b) = Done [] /\
+    forall i t, nth_error locs i = Some t ->
+      let ok r := fst r + snd r <= length (enc b) in
+      exists fq body w aux, nth_error txs i = Some (Arr fq [body; w; aux]) /\
+        sel (enc b) (l_body t) = enc body /\ sel (enc b) (l_wit t) = enc w /\ ok (l_body t) /\ ok (l_wit t) /\
+        (if is_null aux then l_meta t = zero_range else sel (enc b) (l_meta t) = enc aux /\ ok (l_meta t)) /\
+        match body_outputs body with
+        | Some (_, _, outs) =>
+            length (l_outs t) = length outs /\
+            forall m o, nth_error outs m = Some o -> exists r, nth_error (l_outs t) m = Some r /\
+              sel (enc b) r = enc o /\ ok r
+        | None => l_outs t = []
+        end /\
+        (wit_shape w = true ->
+           map (fun c => (comp_kind c, sel (enc b) (comp_range c))) (l_comps t) =
+           map (fun kx => (fst kx, enc (snd kx))) (wit_items w) /\
+           forall c, In c (l_comps t) -> ok (comp_range c)).
+Proof.
+  intros b Hw Hs Hl.
+  destruct (extract_dijkstra b Hw Hs Hl) as (f0 & h & f1 & inv & ft & txs & lc & pc & locs & E & Ex & Len & H).
+  exists f0, h, f1, inv, ft, txs, lc, pc, locs. split; [exact E|]. split; [exact Ex|]. split; [exact Len|].
+  split; [subst b; apply streaming_two_elements; exact Hw|].
+  intros i t Ht ok. destruct (H i t Ht) as (fq & body & w & aux & Hp & Rb & Rw & Hm & Ho & Hc).
+  exists fq, body, w, aux. split; [exact Hp|].
+  split; [apply range_is_slice; exact Rb|]. split; [apply range_is_slice; exact Rw|].
+  split; [eapply range_is_in; exact Rb|]. split; [eapply range_is_in; exact Rw|].
+  split; [destruct (is_null aux); [exact Hm|split; [apply range_is_slice; exact Hm|eapply range_is_in; exact Hm]]|].
+  split.
+  - destruct (body_outputs body) as [[[o fo] outs]|]; [|exact Ho]. destruct Ho as [Hlen Ho]. split; [exact Hlen|].
+    intros m x Hx. destruct (Ho m x Hx) as (r & Hr & R). exists r. split; [exact Hr|].
+    split; [apply range_is_slice; exact R|eapply range_is_in; exact R].
+  - intros Hsh. rewrite Hc. destruct Rw as [Lw _].
+    assert (Hww : wf w).
+    { subst b. apply (wf_children fq [body; w; aux] 1 w); [|reflexivity]. apply (wf_children ft txs i _); [|exact Hp].
+      apply (wf_children f1 [inv; Arr ft txs; lc; pc] 1 _); [|reflexivity]. apply (wf_children f0 _ 1 _ Hw). reflexivity. }
+    pose proof (size_ok_located _ _ _ Lw Hs) as Sw.
+    split; [apply (C07_witness_components_complete (enc b) _ w Hww Sw Hsh Lw)|].
+    intros c Hin. destruct (C07_witness_components_exact (enc b) _ w Hww Sw Hsh Lw c Hin) as (x & _ & Hr & _). exact Hr.
+Qed.
+Print Assumptions C07_dijkstra_offsets_exact.
+
+(* non-vacuity: a Dijkstra block with two transactions (indefinite transactions array, 2-byte header on
+   the block body, one null and one real auxiliary data, a tag-258 datum set and an Alonzo redeemer list) *)
+Definition dj_block : item :=
+  Arr (Some F1) [UInt Fimm 0;
+    Arr (Some F2) [Simple Fimm 22;
+      Arr None [
+        Arr (Some Fimm) [Map (Some Fimm) [(UInt Fimm 0, Arr (Some Fimm) []);
+                                           (UInt Fimm 1, Arr (Some F1) [Arr (Some Fimm) [UInt Fimm 7; UInt F4 5]])];
+                         Map (Some Fimm) [(UInt Fimm 4, Tag F2 258 (Arr (Some Fimm) [UInt F1 7]))];
+                         Simple Fimm 22];
+        Arr None [Map None [(UInt Fimm 2, UInt Fimm 3)];
+                  Map (Some F1) [(UInt Fimm 5, Arr (Some Fimm) [Arr (Some Fimm) [UInt Fimm 1; UInt Fimm 0; UInt F2 9; Arr (Some Fimm) []]])];
+                  Map (Some Fimm) [(UInt Fimm 0, UInt Fimm 9)]]];
+      Simple Fimm 22; Simple Fimm 22]].
+
+Example C07_dijkstra_nonvacuous :
+  wf dj_block /\ size_ok dj_block /\ dijkstra_like dj_block = true /\
+  exists t0 t1, extract_transaction_offsets (enc dj_block) = Done [t0; t1] /\
+    l_meta t0 = zero_range /\ sel (enc dj_block) (l_meta t1) = enc (Map (Some Fimm) [(UInt Fimm 0, UInt Fimm 9)]) /\
+    map (sel (enc dj_block)) (l_outs t0) = [enc (Arr (Some Fimm) [UInt Fimm 7; UInt F4 5])] /\
+    map (fun c => sel (enc dj_block) (comp_range c)) (l_comps t0 ++ l_comps t1) = [enc (UInt F1 7); enc (UInt F2 9)].
+Proof.
+  split; [vm_compute; repeat split; repeat constructor|]. split; [vm_compute; discriminate|]. split; [reflexivity|].
+  eexists _, _. split; [vm_compute; reflexivity|]. repeat split; vm_compute; reflexivity.
+Qed.
+
 (* non-vacuity for the component theorem: a Conway-style witness set with tag-258 sets *)
 Example C07_components_nonvacuous :
   let w := Map (Some Fimm) [(UInt Fimm 1, Tag F2 258 (Arr (Some F1) [Arr (Some Fimm) [UInt Fimm 0; BStr Fimm [1%N; 2%N]]]));
@@ -165,6 +322,16 @@ Example C07_components_nonvacuous :
   map (fun c => sel (enc w) (comp_range c)) (witness_components (enc w) 0) =
     [enc (Arr (Some Fimm) [UInt Fimm 0; BStr Fimm [1%N; 2%N]]); enc (UInt F1 7); enc (UInt Fimm 8); enc (UInt F2 9)].
 Proof. split; [vm_compute; repeat split; repeat constructor|]. split; vm_compute; reflexivity. Qed.
+
+(* ... and the same witness set read by the specification of the completeness theorem *)
+Example C07_complete_nonvacuous :
+  let w := Map (Some Fimm) [(UInt Fimm 1, Tag F2 258 (Arr (Some F1) [Arr (Some Fimm) [UInt Fimm 0; BStr Fimm [1%N; 2%N]]]));
+                            (UInt Fimm 4, Tag F2 258 (Arr None [UInt F1 7; UInt Fimm 8]));
+                            (UInt Fimm 5, Map (Some Fimm) [(Arr (Some Fimm) [UInt Fimm 0; UInt Fimm 3], Arr (Some Fimm) [UInt F2 9; Arr (Some Fimm) []])])] in
+  wit_items w = [(KScript 0, Arr (Some Fimm) [UInt Fimm 0; BStr Fimm [1%N; 2%N]]); (KDatum, UInt F1 7); (KDatum, UInt Fimm 8);
+                 (KRedeemer (0%N, 3%N), UInt F2 9)] /\
+  map comp_kind (witness_components (enc w) 0) = map fst (wit_items w).
+Proof. split; vm_compute; reflexivity. Qed.
 
 (* ---- the pinned tree: header size assumed from the element count ---- *)
 (* a one-transaction block whose outer array header is 0x98 0x05 *)
